@@ -1924,12 +1924,27 @@ def _c19_location(seed):
     tzs = ["Europe/London", "Asia/Tokyo", "Pacific/Apia", "America/New_York", "Asia/Kolkata"]
     loc = Location(LocationInfo("n", "r", rng.choice(tzs), rng.uniform(-60, 60), rng.uniform(-180, 180)))
     hist = []
-    # warm caches, then change attributes, then compare
-    try:
-        loc.noon(datetime.date(2021, 3, 4))
-        loc.observer
-    except Exception:  # noqa: BLE001
-        pass
+    # the arguments of the calls to be compared are fixed first; every method is then called
+    # once with exactly those arguments (anything remembered per call must not outlive an
+    # attribute change), then attributes are changed, then the comparison is made
+    d = datetime.date.fromordinal(rng.randint(693596, 767010))
+    elev = rng.choice([0.0, rng.uniform(0, 2000)])
+    local = rng.random() < 0.6
+    di = rng.choice([SunDirection.RISING, SunDirection.SETTING])
+    naive = datetime.datetime(d.year, d.month, d.day, rng.randint(0, 23), rng.randint(0, 59))
+    for warm in (lambda: loc.sun(d, local, elev), lambda: loc.dawn(d, local, elev),
+                 lambda: loc.dusk(d, local, elev), lambda: loc.sunrise(d, local, elev),
+                 lambda: loc.sunset(d, local, elev), lambda: loc.noon(d, local),
+                 lambda: loc.midnight(d, local), lambda: loc.daylight(d, local, elev),
+                 lambda: loc.night(d, local, elev), lambda: loc.twilight(d, di, local, elev),
+                 lambda: loc.golden_hour(di, d, local, elev), lambda: loc.blue_hour(di, d, local, elev),
+                 lambda: loc.rahukaalam(d, local, elev), lambda: loc.moonrise(d, local),
+                 lambda: loc.moonset(d, local), lambda: loc.time_at_elevation(8.0, d, di, local),
+                 lambda: loc.moon_phase(d), lambda: loc.solar_azimuth(naive, elev),
+                 lambda: loc.solar_elevation(naive, elev), lambda: loc.solar_zenith(naive, elev),
+                 lambda: loc.observer, lambda: loc.info, lambda: loc.tzinfo):
+        if rng.random() < 0.8:
+            _try(warm)
     for _ in range(rng.randint(0, 4)):
         k = rng.random()
         if k < 0.35:
@@ -1944,13 +1959,9 @@ def _c19_location(seed):
         else:
             loc.solar_depression = rng.choice(["civil", "nautical", 7.5])
             hist.append("solar_depression")
-    d = datetime.date.fromordinal(rng.randint(693596, 767010))
-    elev = rng.choice([0.0, rng.uniform(0, 2000)])
-    local = rng.random() < 0.6
     tz = zoneinfo.ZoneInfo(loc.timezone) if local else datetime.timezone.utc
     o = Observer(loc.latitude, loc.longitude, elev)
     o0 = Observer(loc.latitude, loc.longitude, 0.0)
-    di = rng.choice([SunDirection.RISING, SunDirection.SETTING])
     pairs = [
         ("sun", lambda: loc.sun(d, local, elev), lambda: sun.sun(o, d, loc.solar_depression, tz)),
         ("dawn", lambda: loc.dawn(d, local, elev), lambda: sun.dawn(o, d, loc.solar_depression, tz)),
@@ -1971,7 +1982,6 @@ def _c19_location(seed):
          lambda: sun.time_at_elevation(o0, 8.0, d, di, tz)),
         ("moon_phase", lambda: loc.moon_phase(d), lambda: moon.phase(d)),
     ]
-    naive = datetime.datetime(d.year, d.month, d.day, rng.randint(0, 23), rng.randint(0, 59))
     inzone = naive.replace(tzinfo=zoneinfo.ZoneInfo(loc.timezone))
     pairs += [
         ("solar_azimuth", lambda: loc.solar_azimuth(naive, elev), lambda: sun.azimuth(o, inzone)),
